@@ -67,7 +67,9 @@ def run_unit(root, module, prop, tier, seed, rebaseline=False):
         rec["unit"] = unit.name
         rec["describe"] = unit.describe
         rec["trusted"] = list(unit.trusted)
-        rec["clause_scope"] = list(getattr(unit, "clause_scope", []))
+        cs = getattr(unit, "clause_scope", [])
+        # list: fragments that are this unit's own clauses; dict: per property {"only": [...]} or {"except": [...]}
+        rec["clause_scope"] = (cs.get(prop) or {}) if isinstance(cs, dict) else ({"only": list(cs)} if cs else {})
         text, meta = gen.generate(unit, root, rules)
     except (AnchorLost, gen.Unsupported) as e:
         rec["reason"] = f"anchor lost / unsupported construct: {e}"
@@ -167,9 +169,14 @@ def classify_unit(rec, r, meta, base, changed, text):
         for f in real:
             if not f["success"]:
                 failed.append({"function": f["function"], "where": f["function"], "kind": "unknown", "msg": "function not verified", "gen_line": None, "text": "", "verifier": r.get("stderr", "")[-3000:]})
-    scope = rec.get("clause_scope") or []
+    scope = rec.get("clause_scope") or {}
     if scope:
-        inside = [x for x in failed if any(frag in (x.get("verifier", "") + x.get("text", "")) for frag in scope)]
+        def _hit(x, frags):
+            return any(frag in (x.get("verifier", "") + x.get("text", "")) for frag in frags)
+        if scope.get("only"):
+            inside = [x for x in failed if _hit(x, scope["only"])]
+        else:
+            inside = [x for x in failed if not _hit(x, scope.get("except", []))]
         if not inside:
             rec["failed"] = failed
             rec["status"] = "undecided"
